@@ -1,5 +1,5 @@
 (* Case runner and spec checker (T3) for C05. *)
-From WI Require Import Lib.Base Lib.Info Lib.Strings Model.Base64 Model.Dispatch Model.Render Model.Routes.
+From WI Require Import Lib.Base Lib.Info Lib.Strings Model.Base64 Model.Dispatch Model.Render Model.Pem Model.Routes.
 Open Scope N_scope.
 
 Definition result_of_obs5 (a : arg) : result info :=
@@ -74,15 +74,17 @@ Definition run_C05 (op : bytes) (input : arg) : arg :=
     obs_result arg_of_info (parse_pem_block L (arg_bytes (arg_nth 0 input)) (arg_bytes (arg_nth 1 input)))
   else if bytes_eqb op (bs "pemf") then
     let L := lib_of (arg_list (arg_nth 1 input)) in
-    obs_result arg_of_info (pem_file L (blocks_of (arg_nth 2 input)))
+    (* the blocks come from the model of pem.Decode, not from the recorded ones (compared by op pemdec) *)
+    obs_result arg_of_info (pem_file L (pem_blocks_of (arg_bytes (arg_nth 0 input))))
+  else if bytes_eqb op (bs "pemdec") then
+    AL (map (fun b => AL [AB (fst b); AB (snd b)]) (pem_blocks_of (arg_bytes (arg_nth 0 input))))
   else if bytes_eqb op (bs "insp") then
     let name := arg_bytes (arg_nth 0 input) in
     let data := arg_bytes (arg_nth 1 input) in
     let rows := arg_list (arg_nth 2 input) in
     let L := lib_of (arg_list (arg_nth 3 input)) in
-    let blocks := blocks_of (arg_nth 4 input) in
     obs_result arg_of_info
-      (inspect_file L (fun _ => blocks) (sniff_rows rows) (parse_rows rows) name data)
+      (inspect_file L pem_blocks_of (sniff_rows rows) (parse_rows rows) name data)
   else if bytes_eqb op (bs "cli") then
     (* what the three invocations print, given the tree that Inspect returns for this content *)
     let path := arg_bytes (arg_nth 0 input) in
